@@ -256,10 +256,10 @@ common::register! {
     q_sr = sr::<_, 80> => 5,
     q_rr = rr::<_, 64> => 5,
     q_report_block = report_block => 2,
-    q_app = app::<_, 64> => 2,
+    q_app = app::<_, 300> => 2,
     q_bye = bye::<_, 64> => 18,
-    q_fb = fb::<_, 64> => 2,
-    q_unknown = unknown::<_, 64> => 2,
+    q_fb = fb::<_, 300> => 2,
+    q_unknown = unknown::<_, 300> => 2,
     q_enc_sr_1 = enc_sr::<_, 1, 64> => 65,
     q_enc_rr_2 = enc_rr::<_, 2, 68> => 69,
     q_enc_bye_1 = enc_bye::<_, 1, 12, 36> => 37,
@@ -268,10 +268,10 @@ common::register! {
     q_enc_unknown = enc_unknown::<_, 12, 28> => 29,
     t_sr = sr::<_, 256> => 12,
     t_rr = rr::<_, 256> => 12,
-    t_app = app::<_, 256> => 2,
+    t_app = app::<_, 1100> => 2,
     t_bye = bye::<_, 256> => 34,
-    t_fb = fb::<_, 256> => 2,
-    t_unknown = unknown::<_, 256> => 2,
+    t_fb = fb::<_, 1100> => 2,
+    t_unknown = unknown::<_, 1100> => 2,
     t_enc_sr_2 = enc_sr::<_, 2, 88> => 89,
     t_enc_bye_2 = enc_bye::<_, 2, 40, 64> => 65,
     t_enc_app = enc_app::<_, 32, 56> => 57,
